@@ -268,6 +268,10 @@ func prop(t *rapid.T) {
 				m[k] = v
 			}
 			u = r.BuildURL(name, m)
+			// the application keeps its argument map and builds the same URL again later: same result
+			if again := r.BuildURL(name, m); again.String() != u.String() {
+				t.Fatalf("route %q = %s: BuildURL with the same rux.M gives %q the first and %q the second time", name, nr.full, u.String(), again.String())
+			}
 		case 1:
 			var kv []any
 			for _, v := range vars {
